@@ -716,6 +716,14 @@ let judge_valid f =
            | Some TNull -> ()
            | _ -> if mst <> "ok" then setf c16 (F "MergePatch rejects well-formed input"))
         end;
+        if has f "apix" then
+          List.iter (fun e ->
+            match String.split_on_char ':' e with
+            | [name; st] ->
+              if st = "panic" || (String.length st >= 5 && String.sub st 0 5 = "panic") then vs := ["C04", F ("panic in " ^ name)]
+              else if not spec && (st = "ok" || st = "ok1") then
+                setf c16 (F (name ^ " accepts an ill-formed argument (the other one well formed)"))
+            | _ -> ()) (String.split_on_char ';' (get f "apix"));
         if String.length eq < 2 || String.sub eq 0 2 <> "ok" || mst = "panic" || cst = "panic" || (String.length ap >= 2 && String.sub ap 0 2 <> "ok")
         then vs := ["C04", F "panic in an entry point"]
       | _ -> ()
